@@ -3,7 +3,7 @@
    Spec/FindTop.v. *)
 From Coq Require Import List NArith ZArith.
 From Gemato Require Import Py.PyStr Gen.Tables Gen.Util Model.Entry Model.Text Model.FindTop Spec.FindTop.
-From Gemato Require Import Proofs.FindTopProof Proofs.UtilSpec.
+From Gemato Require Import Proofs.FindTopProof Proofs.UtilSpec Proofs.FindTopCor.
 Import ListNotations.
 Open Scope N_scope.
 
@@ -17,6 +17,21 @@ Theorem C15_outermost : forall levels comps xdev compr vs r,
   find_top_level levels comps xdev compr = Ok r -> is_answer vs comps xdev r.
 Proof. exact find_top_level_spec. Qed.
 Print Assumptions C15_outermost.
+
+(* read off the specification: with filesystem crossing disallowed, the Manifest that is returned lies on the device of the start
+   directory - its directory and the file itself (a Manifest that is a link to a file elsewhere does not count) - and so does every
+   level passed on the way up to it; none of those levels IGNOREs the start path, none below it is the root directory *)
+Theorem C15_no_manifest_on_another_device : forall levels comps compr vs j n,
+  Forall2 (fun lv v => view_of (manifest_filenames compr) lv = Some v) levels vs ->
+  find_top_level levels comps false compr = Ok (Some (j, n)) ->
+  exists v fdev es, nth_error vs j = Some v /\ v_man v = Some (n, fdev, es) /\
+    v_dev v = dev0 vs /\ fdev = dev0 vs /\
+    (forall k vk, (k <= j)%nat -> nth_error vs k = Some vk ->
+       v_dev vk = dev0 vs /\ ignores comps k vk = false /\
+       match v_man vk with Some (_, fd, _) => fd = dev0 vs | None => True end) /\
+    (forall k vk, (k < j)%nat -> nth_error vs k = Some vk -> v_root vk = false).
+Proof. exact returned_manifest_is_local. Qed.
+Print Assumptions C15_no_manifest_on_another_device.
 
 (* compressed Manifests are considered only when explicitly allowed *)
 Theorem C15_compressed_only_if_allowed : manifest_filenames false = [s_Manifest].
@@ -44,3 +59,12 @@ Example C15_example :
                  [[116;111;112]; [109;105;100]; [115;117;98]] true false
   = Ok (Some (0%nat, s_Manifest)).
 Proof. vm_compute. reflexivity. Qed.
+
+(* one-file-system mode: the Manifest of the level above the start directory is a link to a file on device 2 - the search returns
+   the Manifest of the start directory, and with crossing allowed the outer one *)
+Example C15_foreign_link_example :
+  let man (fdev : N) := mk_level (Ok (1, false)) [(s_Manifest, FText fdev [])] in
+  let root := mk_level (Ok (1, true)) [] in
+  find_top_level [man 1; man 2; root] [[116;111;112]; [115;117;98]] false false = Ok (Some (0%nat, s_Manifest)) /\
+  find_top_level [man 1; man 2; root] [[116;111;112]; [115;117;98]] true false = Ok (Some (1%nat, s_Manifest)).
+Proof. split; vm_compute; reflexivity. Qed.
